@@ -185,25 +185,6 @@ Theorem no_panic_for_valid_types : forall norm ordered reqs m,
 Proof. exact run_no_panic. Qed.
 Print Assumptions no_panic_for_valid_types.
 
-(* --- tie G: the model's conjunction is the source's conjunction --------- *)
-
-(* [accepted] is the conjunction of the ten rules in the order and polarity
-   genmodel reads off `accepted := ...` in handleConfigChange (GenC07.v) *)
-Theorem accept_rules_match_source : forall norm,
-  map (fun r : bool * String.string * (bool -> membership -> cc -> bool) => fst r) (rule_table norm)
-  = accepted_conjuncts /\
-  forall ordered m c,
-    accepted norm ordered m c = forallb (eval_rule ordered m c) (rule_table norm) /\
-    rule_vector norm ordered m c = map (fun r => snd r ordered m c) (rule_table norm).
-Proof. exact (fun norm => conj (rule_table_matches_source norm) (accepted_is_rule_table norm)). Qed.
-Print Assumptions accept_rules_match_source.
-
-(* m.apply is called once, under `if accepted`, and the function returns `accepted`;
-   addressEqual is EqualFold of the two TrimSpace'd strings *)
-Theorem source_shape : apply_only_when_accepted = true /\ address_equal_is_equalfold_of_trimspace = true.
-Proof. exact source_shape_facts. Qed.
-Print Assumptions source_shape.
-
 (* --- non-vacuity -------------------------------------------------------- *)
 
 (* a concrete history from the empty membership (ordered on): bootstrap of two
